@@ -23,7 +23,7 @@ ASSUMPTIONS = ["loss detection time for EOF / reset / refused / rejected handsha
                "whether on_error is called for a loss that is followed by a reconnect is not specified and not compared"]
 TASK_LIMIT_S = {"quick": 280, "thorough": 3400}
 
-ABNORMAL = ["refused", "hs404", "eof", "reset", "silent"]
+ABNORMAL = ["refused", "hs404", "eof", "reset", "silent", "eof-midframe", "eof-midmessage"]
 TERMINAL = ["server-close", "close-in-on_message", "close-in-opener"]
 ALL_CB = ["on_open", "on_message", "on_error", "on_close", "on_ping", "on_pong", "on_data"]
 
@@ -142,6 +142,13 @@ def peer_factory(kind, idx, ping):
         return lambda: tnet.ServerPeer(hs="status:404")
     if kind == "eof":
         return lambda: tnet.ServerPeer(script=[(1.0, "data", msg), (2.0, "eof", b"")], on_ping=on_ping)
+    if kind == "eof-midframe":
+        # the stream ends in the middle of a frame (header + part of the payload already delivered)
+        part = R.encode(R.BINARY, b"0123456789")[:6]
+        return lambda: tnet.ServerPeer(script=[(1.0, "data", msg), (1.5, "data", part), (2.0, "eof", b"")], on_ping=on_ping)
+    if kind == "eof-midmessage":
+        # the stream ends between the fragments of a message
+        return lambda: tnet.ServerPeer(script=[(1.0, "data", msg), (1.5, "data", R.encode(R.TEXT, b"half", fin=0)), (2.0, "eof", b"")], on_ping=on_ping)
     if kind == "reset":
         return lambda: tnet.ServerPeer(script=[(1.0, "data", msg), (2.0, "rst", b"")], on_ping=on_ping)
     if kind == "silent":
@@ -259,7 +266,7 @@ class Harness:
         for i, k in enumerate(kinds[:-1]):
             if k in ("refused", "hs404"):
                 det = t
-            elif k in ("eof", "reset"):
+            elif k in ("eof", "reset", "eof-midframe", "eof-midmessage"):
                 det = t + 2.0
             else:  # silent peer: first ping at t+8 (two intervals of 4), detection within 2 timeouts (C16)
                 det = None
